@@ -620,8 +620,13 @@ class World:
                 else:
                     src.setall(a % 2)
             elif kind == 'bytesio':
-                src.seek(0)
-                src.write(b'\xff\x00\xff')
+                if a % 2 and len(src.getvalue()):
+                    # in-place edit through the stream's own buffer view (possible even while something else holds a view of it)
+                    with src.getbuffer() as view:
+                        view[b % len(view)] ^= 0xff
+                else:
+                    src.seek(0)
+                    src.write(b'\xff\x00\xff')
             elif kind == 'list':
                 if src:
                     src[b % len(src)] = not src[b % len(src)]
